@@ -874,7 +874,8 @@ func (p *prog) genCreateMPU() (*op, *mup) {
 func (p *prog) genCreateMPUIn(b string, bOK bool, avoid map[string]bool) (*op, *mup) {
 	k, _ := p.key(b, 20)
 	busy := func(k string) bool {
-		if avoid[k] {
+		if avoid[k] || p.mpuKeys[b+"/"+k] {
+			// also keys of uploads that were generated but are still queued (not acknowledged yet)
 			return true
 		}
 		// upload ids are random: two open uploads of one key list in an order that legitimately differs between gateways
@@ -892,6 +893,10 @@ func (p *prog) genCreateMPUIn(b string, bOK bool, avoid map[string]bool) (*op, *
 		k = fmt.Sprintf("mpu-%d", p.m.nslot)
 	}
 	p.m.nslot++
+	if p.mpuKeys == nil {
+		p.mpuKeys = map[string]bool{}
+	}
+	p.mpuKeys[b+"/"+k] = true
 	u := &mup{slot: p.m.nslot, bucket: b, key: k, parts: map[int][]byte{}}
 	var hdr s3c.H
 	class := "plain"
